@@ -16,8 +16,9 @@ MANIFEST = {
                  "interactors under a ScriptedEngine + impl-side oracle on every interactor",
     "text": "Model/Interact.lean models Klein–Nishina, e+ annihilation, Møller–Bhabha and muon "
             "Bethe–Bloch ionisation (with IoniFinalStateHelper), the bremsstrahlung final state "
-            "(Tsai–Urban + BremFinalStateHelper), Bethe–Heitler below 2 MeV, and the bookkeeping of "
-            "Coulomb/Rayleigh/Livermore, together with rotate/from_spherical/calc_exiting_direction "
+            "(Tsai–Urban + BremFinalStateHelper), Bethe–Heitler below 2 MeV, AtomicRelaxation (vacancy "
+            "cascade on any transition table: Auger vs electron cut, fluorescence vs gamma cut, "
+            "sum_energy, count), and the bookkeeping of Coulomb/Rayleigh/Livermore, together with rotate/from_spherical/calc_exiting_direction "
             "and the StackAllocator request; random numbers come from an explicit script. The same "
             "definitions run at Float must reproduce the real interactors bit-for-bit (outgoing "
             "energy/direction, secondaries, deposit, allocator size, draw count) and are proved at ℝ: "
@@ -30,7 +31,7 @@ MANIFEST = {
     "design_ref": "DESIGN.md §6 C04",
     "note": "Partial: proofs are about the real-number reading (rounding measured, not proved); "
             "Seltzer–Berger / relativistic-brem energy samplers, Wentzel and Rayleigh form-factor "
-            "loops, Livermore shell selection and atomic relaxation, Bethe–Heitler above 2 MeV, "
+            "loops, Livermore shell selection, calc_max_secondaries, Bethe–Heitler above 2 MeV, "
             "MuBB/Bragg/ICRU73QO distributions, muon bremsstrahlung and CHIPS neutron elastic are "
             "NOT modelled in Lean (imported tables): oracle only; neutron elastic is not driven. "
             "No worst-case draw bound exists for adversarial streams; KN per-iteration acceptance "
@@ -439,7 +440,7 @@ def judge(name, line, out):
     free = cap - size
     fam = ("kn" if name == "kn" else "gg" if name == "gg" else "brems" if name[:2] in ("sb", "rb", "cb")
            else "pair" if name.startswith("bh") else "ioni" if m["thr"] in ("cut", "bragg") and m["mom"]
-           else "other")
+           else "mubrems" if name.startswith("mubrems") else "other")
     if r["action"] == "failed":
         if m["need"] == 0 or free >= m["need"]:
             bad("spurious-failure", "failed although %d slots were free (needs %d)" % (free, m["need"]))
@@ -468,10 +469,10 @@ def judge(name, line, out):
     if any((not math.isfinite(v)) or v < 0 for v in vals):
         # limit-rounding patterns (known findings): the sampled secondary energy is within a few
         # ulp of a kinematic limit, so the complementary energy rounds just below zero
-        lim = {"brems": 4, "pair": 8}.get(fam, 0) * math.ulp(e_in)
+        lim = {"brems": 4, "mubrems": 4, "pair": 8}.get(fam, 0) * math.ulp(e_in)
         if lim and all(math.isfinite(v) and v >= -lim for v in vals):
             what = ("photon energy within 4 ulp(T) above the incident kinetic energy T (upper limit "
-                    "of the sampling interval)" if fam == "brems" else
+                    "of the sampling interval)" if fam in ("brems", "mubrems") else
                     "ε within rounding of ε₀ = m_e/E (lower kinematic limit): ε·E − m_e < 0")
             fails.append(("endpoint-negative-energy:" + fam, "%s: kinetic energy %.3g < 0: %s"
                           % (name, min(vals), what), dict(values=vals)))
@@ -758,8 +759,15 @@ def run(ctx):
         "energy samplers backed by imported tables (Seltzer–Berger, relativistic brems, Wentzel, "
         "Rayleigh form factors, Livermore shells/relaxation), Bethe–Heitler above 2 MeV, MuBB, "
         "Bragg/ICRU73QO, muon bremsstrahlung: oracle only; neutron elastic: not driven (no fixture)",
-        "fixture materials/elements: Cu, K, Pb, PbWO of the repository's own tests (the only "
-        "elements with data files in test/celeritas/data)",
+        "fixture materials/elements: Cu, K, Pb, PbWO of the repository's own tests; Livermore PE / "
+        "relaxation data exist only for K (Z=19), Seltzer–Berger only for Cu (Z=29) in "
+        "test/celeritas/data; relaxation logic for other tables is covered by synthetic "
+        "transition tables (relax / xrelax ops)",
+        "production cuts are independent per particle type (γ below/above e⁻, one of them zero); "
+        "a secondary is judged by its own type's cut; no interactor documents a positron "
+        "threshold (pair production applies none), so positrons are only checked for E ≥ 0",
+        "relaxation: count ≤ calc_max_secondaries is checked on the real code (oracle, sentinel "
+        "past the request), not proved (MaxSecondariesCalculator not modelled)",
     ]
     ctx.coverage.update({
         "evaluations": len(lines) + len(olines) + n_rot + n_xrelax, "distinct_nontrivial": len(distinct),
